@@ -156,11 +156,17 @@ class Report:
 
     def finish(self):
         known = known_keys(self.prop)
-        new = [(k, w, p) for (k, w, p) in self.violations if k not in known]
+
+        def is_known(k):
+            # a violation attributed to several known deviations at once is known iff each of them is listed
+            return all(part in known for part in k.split('+'))
+        new = [(k, w, p) for (k, w, p) in self.violations if not is_known(k)]
         seen_known = {}
         for (k, w, p) in self.violations:
-            if k in known and k not in seen_known:
-                seen_known[k] = (w, p)
+            if is_known(k):
+                for part in k.split('+'):
+                    if part not in seen_known:
+                        seen_known[part] = (w, p)
         for k, (w, p) in sorted(seen_known.items()):
             print('KNOWN-FINDING: property=%s %s -- %s (e.g. %s)' % (self.prop, k, known[k]['what'], p))
         reported = set()
